@@ -88,6 +88,25 @@ def run(ctx):
                 snap_term = T
         ctx.ob(2, "K8", "a container is started on a pool only while that pool's entry of the CPU snapshot is >= 1", snap_term is not None, fn_, c,
                construct="guard: avail >= 1", detail=d + f"; snapshot entry: {snap_term}")
+        plp = enclosing_for(c, fn_.node)
+        if snap_term is not None and plp is not None:
+            # work conservation: a pool is passed over only for lack of a free CPU — an iteration of the pool scan that does not reach the
+            # construction must have seen `entry < 1` (any other reason to skip a pool can leave a ready operator waiting beside a free CPU)
+            hid_ = g.node_of(plp).id
+            terms = {snap_term}
+            if isinstance(plp.target, ast.Tuple) and len(plp.target.elts) == 2 and isinstance(plp.target.elts[1], ast.Name):
+                terms.add(plp.target.elts[1].id)
+
+            def no_cpu(lab):
+                if not (isinstance(lab, tuple) and lab[0] == "cond"):
+                    return False
+                for a in norm.atoms_true(lab[1]):
+                    if a[0] == "cmp" and ((a[1] == "<" and a[2] in terms and a[3] in ("1", "1.0")) or (a[1] == "<=" and a[2] in terms and a[3] in ("0", "0.0"))):
+                        return True
+                return False
+            skipp = g.path_avoiding(hid_, {hid_}, {g.node_of(stc).id, g.exit.id}, edge_ok=lambda a, b, lab, hid_=hid_: not (a == hid_ and lab == "done") and not no_cpu(lab))
+            ctx.ob(2, "K2", "a pool is passed over only when its entry of the CPU snapshot is below 1 (every pool with a free CPU is eligible for every operator)", skipp is None, fn_, plp,
+                   construct="pool scan: only skip is `avail < 1`", detail="no iteration skips a pool for another reason" if skipp is None else f"a pool can be skipped although it has a free CPU: {g.describe_path(skipp)}")
         if snap_term is not None:
             alld = [n for n in own_nodes(fn_.node) if isinstance(n, ast.AugAssign) and norm.U(n.target) == snap_term]
             okd = len(alld) == 1
